@@ -59,6 +59,12 @@ class GovGen:
         elif k < 0.6:
             c = r.choice(["c2", "c4"])
             self.submit("ca" + c[1:], f"appchain LogoutAppchain s:{c} s:reason", "appchain-logout", "appchain", c)
+        elif k < 0.64:
+            # the chain's own admin changes the chain's name: an update that needs a vote (the chain is `updating`, its services
+            # are paused meanwhile; approved: the new name and `available`, rejected: back)
+            c = r.choice(["c1", "c2", "c4"])
+            self.upd = getattr(self, "upd", 0) + 1
+            self.submit("ca" + c[1:], f"appchain UpdateAppchain s:{c} s:name-{c}-v{self.upd} s:desc x: s:@ca{c[1:]} s:reason", "appchain-update", "appchain", c)
         elif k < 0.7:
             c = r.choice(["c1", "c2", "c4"])
             self.submit(r.choice(ADMINS), f"appchain ActivateAppchain s:{c} s:reason", "appchain-activate", "appchain", c)
@@ -1066,6 +1072,11 @@ class LcGen(GovGen):
                 if target == "S":
                     who = f"ca{c[1]}" if op == "Logout" else r.choice(ADMINS)
                     self.submit(who, f"service {op}Service s:{svc} s:reason", "service-" + op.lower(), "service", svc)
+                elif r.random() < 0.25:
+                    # the chain's own admin changes the chain's name: an update that needs a vote
+                    self.upd = getattr(self, "upd", 0) + 1
+                    op = "Update"
+                    self.submit(f"ca{c[1]}", f"appchain UpdateAppchain s:{c} s:name-{c}-v{self.upd} s:desc x: s:@ca{c[1]} s:reason", "appchain-update", "appchain", c)
                 else:
                     who = f"ca{c[1]}" if op == "Logout" else r.choice(ADMINS)
                     self.submit(who, f"appchain {op}Appchain s:{c} s:reason", "appchain-" + op.lower(), "appchain", c)
